@@ -45,6 +45,17 @@ def _winit(modname, ll_files, so_path, tier, seed):
     E.query_timeout_ms = 20000 if tier == 'quick' else 120000
     _W.update(H=H, E=E, tier=tier, seed=seed, so=so_path, init_s=time.time() - t0)
 
+def _validate_child(part, ll, so, tier, seed, q):
+    try:
+        P = importlib.import_module(part)
+        _winit(part, ll, so, tier, seed)
+        lib = ctypes.CDLL(so) if so else None
+        n = P.validate(_W['E'], lib) if hasattr(P, 'validate') else 0
+        q.put(('ok', n))
+    except EncoderMismatch as e: q.put(('mismatch', str(e)))
+    except NativeViolation as e: q.put(('native', e.key, e.note, e.cex))
+    except Exception as e: q.put(('crash', 'validation crashed: %s\n%s' % (e, traceback.format_exc()[-1500:])))
+
 def _alarm(signum, frame): raise ObTimeout()
 
 def _wrun(ob):
@@ -157,20 +168,29 @@ def main(argv=None):
             # encoder validation runs in the parent meanwhile (own engine instance)
             it = pool.imap_unordered(_wrun, obs, chunksize=1)
             val_err = None; native_viol = None
-            try:
-                _winit(part, ll, so, tier, seed)
-                lib = ctypes.CDLL(so) if so else None
-                nval += P.validate(_W['E'], lib) if hasattr(P, 'validate') else 0
-            except EncoderMismatch as e:
-                val_err = str(e)
-            except NativeViolation as e:
-                native_viol = e
-            except Exception as e:
-                val_err = 'validation crashed: %s\n%s' % (e, traceback.format_exc()[-1500:])
+            # the validation runs call the NATIVE build: they run in a child process, so that a crash of the code under test cannot take the check down with it
+            vq = ctx.Queue(); vp_ = ctx.Process(target=_validate_child, args=(part, ll, so, tier, seed, vq)); vp_.start()
             for r in it:
                 presults.append(r)
                 if os.environ.get('VERIF_VERBOSE'):
                     print('  [%s] %s paths=%d q=%d %.1fs %s' % (r['status'], r['name'], r['paths'], r['queries'], r['wall'], (r['note'] or '')[:300]), flush=True)
+        msg = None; t_wait = time.time()
+        while time.time() - t_wait < 3600:
+            try: msg = vq.get(timeout=1); break
+            except Exception:
+                if not vp_.is_alive():
+                    try: msg = vq.get(timeout=1)
+                    except Exception: msg = None
+                    break
+        vp_.join(30)
+        if vp_.is_alive(): vp_.kill()
+        if msg is None:
+            sig = -vp_.exitcode if (vp_.exitcode is not None and vp_.exitcode < 0) else None
+            native_viol = NativeViolation('%s:native-crash' % pid, 'the native build of the code under test terminated abnormally (%s) during the concrete validation runs' % ('signal %d' % sig if sig else 'exit %s' % vp_.exitcode), None)
+        elif msg[0] == 'ok': nval += msg[1]
+        elif msg[0] == 'mismatch': val_err = msg[1]
+        elif msg[0] == 'native': native_viol = NativeViolation(msg[1], msg[2], msg[3])
+        else: val_err = msg[1]
         if native_viol is not None:
             r = mkres('native/' + native_viol.key, 'violated', note=native_viol.note); r['key'] = native_viol.key; r['cex'] = native_viol.cex; r['native'] = True
             presults.append(r)
